@@ -516,6 +516,7 @@ func runC13(c *Ctx) {
 	checkShortChunkEndsTransfer(c, "R13")
 	checkConcurrentCopyOnlyOfRegularFiles(c, "R14")
 	checkFillCountsEveryRead(c, "R15")
+	checkNilOnlyWhenComplete(c, "R16")
 
 	// R7: ReadFrom / ReadFromWithConcurrency leave the File offset at the end of the intact prefix
 	checkOffsetStores(c, "R7", map[string]bool{"(*File).ReadFrom": true, "(*File).readFromWithConcurrency": true})
@@ -1930,4 +1931,44 @@ func checkSequentialLoops(c *Ctx, rule string) {
 		}
 	}
 
+}
+
+// checkNilOnlyWhenComplete (C13.R16 / C01.R21 / C12.R14): in the positional transfer functions of File — (b []byte, off
+// int64) (int, error) — a return with a nil error carries a count that the prover shows to be at least len(b) from the
+// guards that lead to it (the exit condition of the chunk loop).  `for read < len(b)-1` leaves the loop one byte
+// early and reports (len(b)-1, nil): a short count with a nil error.
+func checkNilOnlyWhenComplete(c *Ctx, rule string) {
+	p := c.P
+	w := newZWorld(p)
+	n := 0
+	for _, fn := range fileFuncs(p) {
+		if fn.Parent() != nil || len(fn.Params) != 3 {
+			continue
+		}
+		sig := fn.Signature
+		if sig.Results().Len() != 2 || !isErrorType(sig.Results().At(1).Type()) {
+			continue
+		}
+		if b, ok := sig.Results().At(0).Type().Underlying().(*types.Basic); !ok || b.Kind() != types.Int {
+			continue
+		}
+		sl, ok := fn.Params[1].Type().Underlying().(*types.Slice)
+		if !ok || !isByteType(sl.Elem()) {
+			continue
+		}
+		z := w.get(fn)
+		for _, r := range findInstrs(fn, isReturn) {
+			ret := r.(*ssa.Return)
+			if len(ret.Results) != 2 || !isNilConst(ret.Results[1]) {
+				continue
+			}
+			n++
+			cnt := z.term(ret.Results[0])
+			lb := z.lenOf(fn.Params[1], 0)
+			ok, why := z.prove(ret, []lin{leq(lb, cnt, 0)})
+			c.check(ok, rule, fnName(fn)+": nil error only with the whole buffer", p.Pos(ret.Pos()), "count >= len(b) follows from the guards on the way to this return",
+				"a return with a nil error whose count is not shown to reach len(b) (unproved: "+why+"): a short count comes with a nil error")
+		}
+	}
+	c.check(n >= 3, rule, "nil returns of the positional transfer functions", "?", fmt.Sprintf("%d returns", n), fmt.Sprintf("only %d nil-error returns found", n))
 }
